@@ -107,7 +107,7 @@ def analyse(cfg: CFG, sc: Scope, size_attr: str, lst: str, counter: str | None):
     problems = []
     # state at node entry: set of (rel or None (no batch yet), k_exact or None, off or None)
     #   k_exact: the exact length while it is still a known small number (needed to relate the counter's start value)
-    state: dict[int, set] = {cfg.entry: {(None, None, None)}}
+    state: dict[int, set] = {cfg.entry: {(None, None, None, None)}}
     work = [cfg.entry]
     seen_problem = set()
 
@@ -116,42 +116,42 @@ def analyse(cfg: CFG, sc: Scope, size_attr: str, lst: str, counter: str | None):
 
     def step(n, st):
         """effect of executing node n normally: returns new state tuple set (may be several)"""
-        rel, k, off = st
+        rel, k, off, nv = st  # nv: exact value of the counter while it is a known small number
         a = n.ast
-        out = None
         if n.kind == 'stmt':
             c = creates(a)
             if c is not None:
                 rels = {LT} if c == 0 else ({LT, EQ} if c == 1 else {LT, EQ, GT})
-                return {(r_, c, None) for r_ in rels}
+                return {(r_, c, clamp(nv - c) if nv is not None else None, nv) for r_ in rels}
             cs = counter_set(a)
             if cs is not None:
-                return {(rel, k, clamp(cs - k) if (cs != 'unknown' and k is not None) else None)}
+                nv2 = cs if cs != 'unknown' else None
+                return {(rel, k, clamp(nv2 - k) if (nv2 is not None and k is not None) else None, nv2)}
             ci = counter_inc(a)
             if ci is not None:
-                return {(rel, k, clamp(off + ci) if off is not None else None)}
+                return {(rel, k, clamp(off + ci) if off is not None else None, (nv + ci) if nv is not None and nv < 4 else None)}
             na = n_appends(n)
             if na and rel is not None:
                 if other_growth(n):
-                    return {(GT, None, None)}
-                res = {(rel, k, off)}
+                    return {(GT, None, None, nv)}
+                res = {(rel, k, off, nv)}
                 for _ in range(na):
                     nxt = set()
-                    for r_, k_, o_ in res:
+                    for r_, k_, o_, v_ in res:
                         if r_ != LT and (n.id, 'append') not in seen_problem:
                             seen_problem.add((n.id, 'append'))
                             problems.append((n, f'`{norm_text(a)[:50]}` can run when the batch already holds `{size_attr}` items (the path to it does not establish len({lst}) < {size_attr}): the batch grows beyond the configured size' + (' — with a size of 1 the first element already fills the batch' if k_ == 1 else '')))
                         for r2 in _shift(r_):
-                            nxt.add((r2, (k_ + 1) if k_ is not None and k_ < 3 else None, clamp(o_ - 1) if o_ is not None else None))
+                            nxt.add((r2, (k_ + 1) if k_ is not None and k_ < 3 else None, clamp(o_ - 1) if o_ is not None else None, v_))
                     res = nxt
                 return res
             if other_growth(n) and rel is not None:
                 problems.append((n, f'`{norm_text(a)[:50]}` grows the batch by an unknown number of items'))
-                return {(GT, None, None)}
-        return {(rel, k, off)}
+                return {(GT, None, None, nv)}
+        return {(rel, k, off, nv)}
 
     def refine(st, fact, label):
-        rel, k, off = st
+        rel, k, off, nv = st
         if fact is None or rel is None:
             return {st}
         subj, sat = fact
